@@ -11,7 +11,7 @@ from .c06 import sec_of
 PROP = {
     "id": "C12",
     "level": "exploration",
-    "technique": "metamorphic testing: take a valid encoding (library-written, reference-encoded, or a BTS capture block / the capture's header+table), overwrite every don't-care byte position (class map from the reference codec) with generated values, require identical decoded content and canonical re-encoding; plus exhaustive sweeps of single don't-care words through whole value ranges (finite enumeration)",
+    "technique": "metamorphic testing: take a valid encoding (library-written, reference-encoded, or a BTS capture block / the capture's header+table), overwrite every don't-care byte position (class map from the reference codec) with generated values, require identical decoded content and canonical re-encoding; plus exhaustive sweeps of single don't-care words through whole value ranges (finite enumeration); enumerated: lone words, word sweeps, filler matrix, store-again through the container next to the zero-filled twin, string reader x encodings, full-width names after filler",
     "level_text": ("Exploration with a metamorphic oracle: the reference codec classifies every byte of an encoding; all positions of class "
                    "reserved / pad256 / string-tail are overwritten with uniform random bytes, 0xFF, text that looks like a longer label, or "
                    "an adversarial alphabet (bytes undefined in cp1252, extra NULs). Content must not change and re-encoding must give the "
